@@ -41,6 +41,7 @@ type fctx struct {
 	aux    []string // emitted loop definitions
 	loopNo int
 	params []string // Lean binder list of the function (for loops: subset is recomputed)
+	closure bool    // translating a function literal: only the receiver is threaded
 }
 
 var leanReserved = map[string]bool{"end": true, "at": true, "from": true, "fun": true, "do": true, "then": true, "else": true,
@@ -258,6 +259,16 @@ func (c *fctx) expr(e ast.Expr) (lx, error) {
 		if err != nil {
 			return lx{}, err
 		}
+		if b.t.k == kBuf {
+			if x.Low != nil || x.High == nil || x.Slice3 {
+				return lx{}, fmt.Errorf("only buf[:n] is supported on a written slice (outside copy / PutUvarint)")
+			}
+			h, err := c.intExpr(x.High)
+			if err != nil {
+				return lx{}, err
+			}
+			return lx{s: c.hoist(fmt.Sprintf("Pico.GoBuf.resliceTo %s %s", b.s, h)), t: b.t}, nil
+		}
 		if b.t.k != kList || x.Slice3 {
 			return lx{}, fmt.Errorf("unsupported slice expression")
 		}
@@ -341,6 +352,12 @@ func (c *fctx) selector(x *ast.SelectorExpr) (lx, error) {
 			return lx{}, fmt.Errorf("field %s of %s is not in the model's structure", x.Sel.Name, base.t.name)
 		}
 		s = base.s + "." + path
+		if path == "" {
+			s = base.s
+		}
+	}
+	if sc.bufs[x.Sel.Name] {
+		return lx{s: s, t: ltype{k: kBuf, lean: "Pico.EncLow.Buf"}}, nil
 	}
 	if t.k == kBool {
 		return mkBoolV(s), nil
@@ -689,6 +706,9 @@ func (c *fctx) callExpr(x *ast.CallExpr) (lx, error) {
 				if a.t.k == kList {
 					return lx{s: "(Go.len " + a.s + ")", t: ltype{k: kInt, lean: "Int"}}, nil
 				}
+				if a.t.k == kBuf {
+					return lx{s: "(Int.ofNat " + a.s + ".len)", t: ltype{k: kInt, lean: "Int"}}, nil
+				}
 				return lx{}, fmt.Errorf("len of %s not supported", a.t.lean)
 			case "append":
 				a, err := c.expr(x.Args[0])
@@ -700,7 +720,16 @@ func (c *fctx) callExpr(x *ast.CallExpr) (lx, error) {
 					if err != nil {
 						return lx{}, err
 					}
+					if a.t.k == kBuf {
+						if b.t.k != kList {
+							return lx{}, fmt.Errorf("append of a written slice to a written slice")
+						}
+						return lx{s: "(Pico.EncLow.Buf.append oracle " + a.s + " " + b.s + ")", t: a.t}, nil
+					}
 					return lx{s: "(" + a.s + " ++ " + b.s + ")", t: a.t}, nil
+				}
+				if a.t.k == kBuf {
+					return lx{}, fmt.Errorf("element-wise append to a written slice not supported")
 				}
 				var els []string
 				for _, e := range x.Args[1:] {
@@ -732,11 +761,45 @@ func (c *fctx) callExpr(x *ast.CallExpr) (lx, error) {
 			return lx{}, fmt.Errorf("builtin %s not supported", id.Name)
 		}
 	}
+	if id, ok := x.Fun.(*ast.Ident); ok {
+		if cb, ok := c.cbs[c.info.Uses[id]]; ok && cb.kind == "source" {
+			var as []string
+			for _, a := range x.Args {
+				v, err := c.expr(a)
+				if err != nil {
+					return lx{}, err
+				}
+				as = append(as, paren(v.s))
+			}
+			rt, err := c.typeOf(x)
+			if err != nil {
+				return lx{}, err
+			}
+			return lx{s: "(" + c.names[c.info.Uses[id]] + " " + strings.Join(as, " ") + ")", t: rt}, nil
+		}
+	}
 	q, fn := c.calleeName(x)
 	if q == "" {
 		return lx{}, fmt.Errorf("unsupported call %s", exprString(x.Fun))
 	}
 	sig := fn.Type().(*types.Signature)
+	if p, ok := c.g.prims[q]; ok && p.bufLean != "" && len(x.Args) > 0 {
+		a0, err := c.expr(x.Args[0])
+		if err != nil {
+			return lx{}, err
+		}
+		if a0.t.k == kBuf {
+			as := []string{a0.s}
+			for _, a := range x.Args[1:] {
+				v, err := c.expr(a)
+				if err != nil {
+					return lx{}, err
+				}
+				as = append(as, paren(v.s))
+			}
+			return lx{s: "(" + p.bufLean + " " + strings.Join(as, " ") + ")", t: a0.t}, nil
+		}
+	}
 	var args []string
 	if sig.Recv() != nil {
 		r, err := c.expr(x.Fun.(*ast.SelectorExpr).X)
@@ -781,7 +844,7 @@ func (c *fctx) callExpr(x *ast.CallExpr) (lx, error) {
 		}
 		return lx{s: term, t: rt}, nil
 	}
-	if f, ok := c.g.fns[q]; ok && len(f.callbacks) == 0 {
+	if f, ok := c.g.fns[q]; ok && !f.needsState() && len(f.callbacks) == 0 {
 		// a translated function without receiver state / pointer params can be used in an expression
 		if sig.Recv() == nil || !isPtr(sig.Recv().Type()) {
 			ptr := false
